@@ -40,6 +40,17 @@ def tokenize(src):
     return toks
 
 
+LEAN_KEYWORDS = set("""end at from fun have show then else if do in let match with where by open namespace section variable theorem
+def instance structure class inductive deriving extends import export private protected mutual universe attribute local macro syntax
+notation prefix infix infixl infixr postfix calc Type Prop Sort suffices using for unless return break continue try catch finally
+abbrev example axiom opaque partial unsafe noncomputable nomatch nofun this""".split())
+
+
+def lname(n):
+    """a Rust local as a Lean identifier"""
+    return n + "_v" if n in LEAN_KEYWORDS else n
+
+
 class Tr:
     def __init__(self, src, atoms, funcs=None):
         """atoms: {source text: (lean, type)} for `self.x`, `self.x.len()`, parameters ...; funcs: {rust name: (lean name, [arg types], ret type)}"""
@@ -267,7 +278,7 @@ class Tr:
                 return ("(%s %s)" % (lean, " ".join(outs)), ret)
             if v in self.env:
                 self.p += 1
-                return (v, self.env[v])
+                return (lname(v), self.env[v])
             raise Unsupported("unknown identifier %r" % v)
         raise Unsupported("unexpected token %r" % ((k, v),))
 
@@ -333,7 +344,7 @@ class Tr:
     def target_name(self, v):
         if v in self.atoms:
             return self.atoms[v][0]
-        return v
+        return lname(v)
 
     def target_type(self, v):
         if v in self.atoms:
@@ -363,7 +374,7 @@ class Tr:
                 e = (e[0], "Nat")
             self.env[name] = e[1]
             rest = self.stmts(tail_needed, result)
-            return ("let %s : %s := %s;\n%s" % (name, e[1], e[0], rest[0]), rest[1])
+            return ("let %s : %s := %s;\n%s" % (lname(name), e[1], e[0], rest[0]), rest[1])
         if k == "id" and self.peek(1)[0] == "op" and self.peek(1)[1] in ("=", "+=", "-="):
             op = self.peek(1)[1]
             self.p += 2
@@ -398,6 +409,30 @@ class Tr:
             if ends_block and result is None:
                 e = self.if_expr()
                 return e
+            # early return: `if c { return; }` (state function) / `if c { return EXPR; }` — the rest of the block is the else branch
+            self.p = save
+            j = self.p
+            while self.t[j] != ("op", "{"):
+                j += 1
+            if self.t[j + 1] == ("id", "return"):
+                self.p += 1
+                c = self.expr()
+                self.eat("{")
+                self.p += 1
+                if self.at(";"):
+                    if result is None:
+                        raise Unsupported("`return;` in a function that returns a value")
+                    val = (result, "State")
+                    self.p += 1
+                else:
+                    val = self.expr()
+                    self.eat(";")
+                self.eat("}")
+                if self.at_id("else"):
+                    raise Unsupported("early return with an else branch")
+                rest = self.stmts(tail_needed, result)
+                ty = rest[1] if "?" not in rest[1] else val[1]
+                return ("(if %s then\n%s\nelse\n%s)" % (self.prop(c), val[0], rest[0]), ty)
             # statement if: tuple of the assigned variables
             self.p = save
             ws = None
@@ -418,6 +453,13 @@ class Tr:
                 proj = "t_" + "".join(".2" for _ in range(i)) + (".1" if i < len(ws) - 1 else "")
                 lets += "let %s := %s;\n" % (w, proj)
             return (lets + rest[0], rest[1])
+        if k == "id" and v == "return":
+            self.p += 1
+            e = self.expr()
+            self.eat(";")
+            if not (self.peek()[0] is None or self.at("}")):
+                raise Unsupported("statements after `return`")
+            return e
         # tail expression
         e = self.expr()
         if self.at(";"):
